@@ -125,8 +125,9 @@ class MathEnv:
         vm.add_model(M('array_normalize'), normalize)
         def esh(vm, m, c, a):
             k = m.fresh_id(); u = [A.fresh('esh_%d_%d' % (k, i)) for i in range(d)]
-            m.log('events', ('esh_momentum_update', str(a[3].v))); m.log('unit_vectors', tuple(x.v for x in u))
-            E.setvec(m, a[2], u); return ret(m, A.fresh('dke_%d' % k))
+            dke = A.fresh('dke_%d' % k); m.log('events', ('esh_momentum_update', str(a[3].v))); m.log('unit_vectors', tuple(x.v for x in u))
+            m.log('esh_calls', (tuple(x.v for x in E.vec(m, a[1])), tuple(x.v for x in E.vec(m, a[2])), a[3].v, tuple(x.v for x in u), dke.v))
+            E.setvec(m, a[2], u); return ret(m, dke)
         vm.add_model(M('esh_momentum_update'), esh)
         # CpuMath per-element update kernels: the *real* per-element closures of cpu_math.rs are executed for each coordinate
         def elem_kernel(method, arrays, scalars):
